@@ -343,6 +343,9 @@ ReadApplyCore(n, elapsed, tail) ==
   /\ \A i \in (rpos + 1)..(rpos + n) : blog[i].id # 0
   /\ tail = "svc" => (rpos + n < written /\ blog[rpos + n + 1].id = 0)
   /\ tail # "none" => tx.off <= dbOffset
+  \* (bound of the model: a payload without a complete event is queued as an empty body each
+  \* time the binlog retries; one such entry in a row is enough)
+  /\ (n = 0 /\ queue # <<>>) => queue[Len(queue)].body # <<>> \/ queue[Len(queue)].skip > 0
   /\ LET chunk == SubSeq(blog, rpos + 1, rpos + n)
      IN IF (elapsed \/ rst = "wtc") /\ dbOffset > cinfo
           THEN /\ rst' = "wtc"
